@@ -30,8 +30,9 @@ def _is_view_subscript(sl: ast.expr) -> bool:
 
 
 class FnAlias:
-    def __init__(self, fn, self_attr_fresh: Optional[Set[str]] = None):
+    def __init__(self, fn, self_attr_fresh: Optional[Set[str]] = None, method_resolver=None):
         self.fn = fn
+        self.method_resolver = method_resolver      # name -> FunctionDef of a self-method (to follow `return self.<attr>`)
         self.cfg = CFG(fn)
         self.rd = ReachingDefs(self.cfg)
         self.params = set(func_params(fn)) if not isinstance(fn, ast.Lambda) else {a.arg for a in fn.args.args}
@@ -153,6 +154,16 @@ class FnAlias:
                     return self.roots(e.func.value, node)
             if cn in VIEW_FUNCS and e.args:
                 return self.roots(e.args[0], node)
+            if self.method_resolver is not None and cn and cn.startswith("self.") and cn.count(".") == 1:
+                callee = self.method_resolver(cn[5:])
+                if callee is not None and callee is not self.fn:
+                    out = set()
+                    for r in ast.walk(callee):
+                        if isinstance(r, ast.Return) and r.value is not None:
+                            p = path_of(r.value)
+                            if p and p.startswith("self.") and p.count(".") == 1:
+                                out.add(p)        # the method hands out a reference to an attribute of self
+                    return out
             return set()
         if isinstance(e, ast.IfExp):
             return self.roots(e.body, node) | self.roots(e.orelse, node)
